@@ -140,6 +140,8 @@ def mk_field(base, name):
                 return t
     if base[0] == "tuple" and name.isdigit() and int(name) < len(base[1]):
         return base[1][int(name)]
+    if base[0] == "ctor" and isinstance(name, str) and name.isdigit() and int(name) < len(base[2]):
+        return base[2][int(name)]            # `.0` of a tuple struct (newtype) built right here
     if base[0] == "ite":
         return mk_ite(base[1], mk_field(base[2], name), mk_field(base[3], name))
     if base[0] == "mut" and len(base) == 4 and base[3] and base[3][0] != name:
@@ -472,9 +474,30 @@ def merge_states(a, b, cond):
     return State(env, a.may | b.may, a.must & b.must)
 
 
+def _variant_test(x):
+    """`x.is_some()`, `x.is_none()`, `matches(x, Some(_))`, `matches(x, None)` (and Ok / Err) are one atom `x is Some` (`x is Ok`) with a
+    polarity: (atom, positive) or None."""
+    if x[0] == "call" and isinstance(x[1], str) and len(x[2]) == 1:
+        l = x[1].rsplit("::", 1)[-1]
+        if l in ("is_some", "is_none") and "Option" in x[1]:
+            return ("#is", "Some", x[2][0]), l == "is_some"
+        if l in ("is_ok", "is_err") and "Result" in x[1]:
+            return ("#is", "Ok", x[2][0]), l == "is_ok"
+    if x[0] == "matches" and len(x) == 3 and isinstance(x[2], tuple) and x[2] and x[2][0] == "var" and isinstance(x[2][1], str):
+        l = x[2][1].rsplit("::", 1)[-1]
+        subs = x[2][2] if len(x[2]) > 2 else ()
+        if l in ("Some", "None", "Ok", "Err") and all(isinstance(y, tuple) and y and y[0] in ("wild", "bind") and (y[0] == "wild" or len(y) < 3 or not y[2]) for y in subs):
+            return ("#is", "Some" if l in ("Some", "None") else "Ok", x[1]), l in ("Some", "Ok")
+    return None
+
+
 def _strip_not(x, pol):
     while isinstance(x, tuple) and x and x[0] == "not":
         x, pol = x[1], not pol
+    if isinstance(x, tuple) and x and x[0] in ("call", "matches"):
+        v = _variant_test(x)
+        if v is not None:
+            return v[0], (pol if v[1] else not pol)
     return x, pol
 
 
@@ -550,24 +573,37 @@ def assume(t, pc):
             if len(cl) != 1 or len(cl[0]) != 1:
                 lits.append((x, pol))           # the compound itself, for whole-term replacement
             clauses += cl
+            if pol and x[0] == "hof" and x[1] == "all" and len(x) > 3 and isinstance(x[3], tuple):
+                clauses += to_clauses(x[3], True)       # what holds for every element holds for the element at hand
     pr = propagate_clauses(lits, clauses)
     if pr is None:
         return t
     lits, clauses = pr
     if not lits and not clauses:
         return t
-    return _assume(t, lits, clauses, 0)
+    try:
+        return _assume(t, lits, clauses, 0, [0])
+    except _AssumeBudget:
+        return t                    # simplification is optional: a term too large to split by cases stays as it is
 
 
-def _assume(t, facts, clauses, depth):
+class _AssumeBudget(Exception):
+    pass
+
+
+ASSUME_BUDGET = 400000
+
+
+def _assume(t, facts, clauses, depth, spent=None):
     memo = {}
+    spent = spent if spent is not None else [0]
 
     def branch(x, c, pol):
         cx, cp = _strip_not(c, pol)
         pr = propagate_clauses(facts + [(cx, cp)], clauses + to_clauses(cx, cp))
         if pr is None:
             return None                     # this branch contradicts the facts
-        return _assume(x, pr[0], pr[1], depth + 1)
+        return _assume(x, pr[0], pr[1], depth + 1, spent)
 
     def go(x):
         if not isinstance(x, tuple) or not x:
@@ -575,11 +611,21 @@ def _assume(t, facts, clauses, depth):
         hit = memo.get(id(x))
         if hit is not None and hit[0] is x:
             return hit[1]
+        spent[0] += 1
+        if spent[0] > ASSUME_BUDGET:
+            raise _AssumeBudget()
         r = None
         for f, pol in facts:
             if x is f or (x[0] == f[0] and len(x) == len(f) and x == f):
                 r = ("lit", pol)
                 break
+        if r is None and x[0] in ("call", "matches"):
+            v = _variant_test(x)
+            if v is not None:
+                for f, pol in facts:
+                    if f[0] == "#is" and f == v[0]:
+                        r = ("lit", pol if v[1] else not pol)
+                        break
         if r is None and x[0] == "ite" and clauses and depth < 5:
             c = go(x[1])
             cc, cpol = _strip_not(c, True)
@@ -936,6 +982,8 @@ class Evaluator:
         self.summ.ret = nz(ret_term([r for r in self.summ.returns if r[5] != "try"]))
         self.summ.ret_full = nz(ret_term_full(self.summ.returns)) if any(r[5] == "try" for r in self.summ.returns) else self.summ.ret
         srch = self._recognise_search()
+        if srch is None:
+            srch = self._recognise_any()
         if srch is not None:
             self.summ.ret = self.summ.ret_full = srch
         # final value of every `&mut` parameter (as a function of the parameters), for callers that inline this function
@@ -1006,6 +1054,43 @@ class Evaluator:
         import norm
         return norm.Normalizer()(("hof", "position", ("call", "core::slice::<impl [T]>::iter", (seq,)), body, ()))
 
+    def _recognise_any(self):
+        """`for x in it { if P(x) { return true } } false` is `it.any(|x| P(x))` (and with the truth values swapped, `!it.any(..)`): the
+        value of such a function is given in that form, so that "some element" and "every element" are not confused."""
+        rs = self.summ.returns
+        if len(rs) != 2 or any(r[5] == "try" for r in rs):
+            return None
+        hit, miss = rs
+        if miss[5] != "tail" or any(c[0] in ("if", "match") for c in miss[1]) or hit[5] != "return":
+            return None
+        if not (hit[0][0] == "lit" and isinstance(hit[0][1], bool) and miss[0][0] == "lit" and isinstance(miss[0][1], bool) and hit[0][1] != miss[0][1]):
+            return None
+        pc = hit[1]
+        if not pc or pc[0][0] != "loop" or pc[0][2] != "for":
+            return None
+        lid = pc[0][1]
+        fors = [x for x in self.summ.sites if x.kind == "for" and x.node is not None and x.node.get("id") == lid]
+        if len(fors) != 1 or contains(fors[0].args[0], lambda x: x[0] == "loopvar"):
+            return None
+        it = fors[0].args[0]
+        body = None
+        for c in pc[1:]:
+            if c[0] not in ("if", "match"):
+                return None
+            t = c[1] if c[0] == "if" else ("matches", c[1], c[2])
+            pol = c[2] if c[0] == "if" else c[3]
+            if c[0] == "match" and (len(c) > 5 and c[5]):
+                return None             # earlier arms take part in the condition
+            if contains(t, lambda x: x[0] in ("loopvar", "mu")):
+                return None
+            t = t if pol else ("not", t)
+            body = t if body is None else ("bin", "&&", body, t)
+        if body is None:
+            return None
+        import norm
+        found = ("hof", "any", it, body, ())
+        return norm.Normalizer()(found if hit[0][1] else ("not", found))
+
     def _normalize(self):
         """Idiom normal forms (norm.py) for everything a rule can look at."""
         import norm
@@ -1035,9 +1120,37 @@ class Evaluator:
                     exits[i] = (t, pc, a, b, n_, k)
                 if contains(t, lambda s_: s_[0] == "loopvar"):
                     exits[i] = (close(t), pc, a, b, n_, k)
+        def close_pc(pc):
+            """Loop variables in the conditions of an exit: a variable that no path back to the loop head changes is its initial value
+            (genuinely iterated values stay: the condition then speaks about some iteration)."""
+            out, changed = [], False
+            for c in pc:
+                if c[0] in ("if", "match") and isinstance(c[1], tuple) and contains(c[1], lambda s_: s_[0] == "loopvar"):
+                    memo_ = {}
+                    lvs = [y for y in [c[1]] + list(subterms(c[1])) if y[0] == "loopvar"]
+                    t2 = c[1]
+                    for lv in lvs:
+                        if lv in memo_:
+                            continue
+                        cv = close(lv)
+                        memo_[lv] = cv
+                        if not contains(cv, lambda s_: s_[0] in ("mu", "loopvar", "collect", "collectmap", "hof", "unk")):
+                            t2 = replace(t2, lv, cv)
+                    if t2 is not c[1]:
+                        c = (c[0], t2) + tuple(c[2:])
+                        changed = True
+                out.append(c)
+            return tuple(out) if changed else pc
+        for name, exits in self.mut_exits.items():
+            for i in range(len(exits)):
+                t, pc, a, b, n_, k = exits[i]
+                pc2 = close_pc(pc)
+                if pc2 is not pc:
+                    exits[i] = (t, pc2, a, b, n_, k)
         rs = self.summ.returns
         for i in range(start, len(rs)):
             t, pc, may, must, node, kind = rs[i]
+            pc = close_pc(pc)
             # what is known on this exit (its own path condition) is used before the loop variables are closed
             import norm
             nz = norm.Normalizer()
@@ -1574,7 +1687,7 @@ class Evaluator:
         for k in list(exit_state.env):
             exit_state.env[k] = close(exit_state.env[k])
         self.st = exit_state
-        return UNIT
+        return exit_state.env.pop(("brk", n["id"]), UNIT)
 
     # ------------------------------------------------------------------ calls
     def apply_closure(self, cid, args):
@@ -1865,6 +1978,7 @@ class Evaluator:
                     term = ("vec", arrs[0][1])
         site.term = term
         # effects through &mut
+        atys = n.get("atys") if isinstance(n, dict) else None
         for i, an in enumerate(argnodes):
             if an is None:
                 continue
@@ -1875,6 +1989,10 @@ class Evaluator:
                 is_mut = True
             elif str(an.get("ty", "")).startswith("&mut") and an.get("k") == "path" and not (kind == "mcall" and i == 0 and name in READONLY_METHODS):
                 is_mut = True
+                j = i - 1 if kind == "mcall" else i
+                if atys is not None and 0 <= j < len(atys) and len(atys) == len(argnodes) - (1 if kind == "mcall" else 0) \
+                        and not str(atys[j]).startswith("&mut"):
+                    is_mut = False          # the `&mut` binding is handed over as a shared reference (reborrow `&*x`): the callee cannot change it
             if is_mut:
                 r = self.root_local(an)
                 if r and r[0] in self.st.env:
@@ -2309,7 +2427,6 @@ class Evaluator:
         frame = self._frame(n)
         self._site(node=n, kind="break", name="break", args=[v], argnodes=[n.get("e")], term=("loop", frame[0] if frame else None))
         if frame is not None:
-            frame[1].append(self.st)
             # the condition under which this `break` is taken, relative to the start of the loop body
             since = []
             seen = False
@@ -2318,6 +2435,14 @@ class Evaluator:
                     seen, since = True, []
                 elif seen:
                     since.append(c)
+            if n.get("e"):
+                # `break value`: the value of the loop expression on this exit, simplified by what is known when the exit is taken
+                try:
+                    v = assume(v, [c for c in since if c[0] == "if"])
+                except (ValueError, RecursionError):
+                    pass
+                self.st.env[("brk", frame[0])] = v
+            frame[1].append(self.st)
             self._break_conds[id(self.st)] = pc_term(since) if all(c[0] in ("if", "match") for c in since) else None
         self.st = None
         return NEVER
